@@ -12,11 +12,12 @@ import z3
 z3.set_param("model.completion", True)
 
 
-class Unsupported(Exception):
-    """The code left the subset the engine supports -> exit 3 (never a violation)."""
+class Unsupported(BaseException):
+    """The code left the subset the engine supports -> exit 3 (never a violation).
+    Derives from BaseException so that `except Exception` clauses of the verified code cannot swallow it."""
 
 
-class PathAbort(Exception):
+class PathAbort(BaseException):
     """Internal: path became infeasible."""
 
 
@@ -782,8 +783,10 @@ def explore(fn, max_paths=512, catch=(Exception,)):
                 pass
             except Unsupported:
                 raise
-            except Exception as e:
-                if _is_code_exception(e):
+            except BaseException as e:
+                if isinstance(e, (KeyboardInterrupt, SystemExit, GeneratorExit)):
+                    raise
+                if type(e).__name__ == "NonLinear" or _is_code_exception(e):
                     results.append(PathResult(ctx, "raise", e))
                 else:
                     raise Unsupported("engine error: %s: %s" % (type(e).__name__, e)) from e
